@@ -99,6 +99,12 @@ def check_chain(ctx, S, R="C14-CHAIN"):
                           "rng.choice(..., replace=%s) can evaluate the same library row twice" % A.unparse(A.get_arg(leaf, None, "replace") or ast.Constant(value="default True")), key=q + ":replace")
             elif isinstance(leaf, ast.Call) and (A.call_name(leaf) or "").endswith("arange"):
                 ctx.ok(R, ev, "%s: natural row order is arange" % q, "")
+            elif isinstance(leaf, ast.Subscript) and isinstance(leaf.slice, ast.Slice) and isinstance(leaf.value, ast.Call) and A.last_attr(leaf.value) in ("permutation", "arange") and _rej.is_prefix_slice(leaf.slice):
+                ctx.ok(R, ev, "%s: row order is a prefix of a permutation" % q, "")
+            elif isinstance(leaf, ast.Call) and A.last_attr(leaf) in ("resize", "tile", "repeat", "integers", "randint", "take", "pad"):
+                ctx.violate(R, ev, "%s: no library row is evaluated twice" % q,
+                            "row order is built with `%s(...)`, which repeats rows (e.g. when the budget exceeds the library): the same prior sample is evaluated and can be returned more than once" % A.last_attr(leaf),
+                            key=q + ":repeat-source")
             else:
                 ctx.undecided(R, ev, "%s: index source" % q, "row source `%s` is neither arange nor choice" % A.unparse(leaf)[:50])
     # ---- cursor advance: at the end of the body (fall-through path) cursor == cursor@loop + size@loop
@@ -227,6 +233,27 @@ def check_nonfinite(ctx, S):
         ctx.check(R, loop, "%s: running out of iterations raises" % S.name, okelse, "the for/else exhaustion branch does not raise", key=S.name + ":maxiter")
 
 
+def check_wrapper(ctx):
+    R = "C14-WRAP"
+    ctx.rule(R, "the tempfile wrapper around iterative_rejection_helper lets every failure surface: its handlers re-raise and its finally block contains no "
+                "return / break / continue (shared with C13-TMP); the file-path helper is the decorated one.")
+    ut = ctx.prog.func("thejoker.utils", "tempfile_decorator.wrapper", R)
+    n = 0
+    for t in A.walk_local(ut):
+        if isinstance(t, ast.Try):
+            n += 1
+            jumps = [x for s in t.finalbody for x in A.walk_local(s) if isinstance(x, (ast.Return, ast.Break, ast.Continue))]
+            ctx.check(R, t, "wrapper: finally does not discard the exception", not jumps, "`%s` inside finally: a failing sampler call returns normally (None) instead of raising" % (A.unparse(jumps[0])[:40] if jumps else ""), key="finally-jump")
+            for h in t.handlers:
+                ctx.check(R, h, "wrapper: handler re-raises", A.always_raises(h.body), "handler swallows the failure", key="handler")
+    ctx.floor(R, n, 1)
+    rets = [s for s in A.walk_local(ut) if isinstance(s, ast.Return)]
+    ctx.check(R, ut, "wrapper returns the wrapped call's result", bool(rets) and all(canon(s.value) == "func_return" for s in rets), "returns %s" % [A.unparse(s.value) for s in rets if s.value is not None], key="ret", nontrivial=False)
+    fn = ctx.prog.func(_rej.MP, "iterative_rejection_helper", R)
+    decs = [canon(d) for d in fn.decorator_list]
+    ctx.check(R, fn, "iterative_rejection_helper is wrapped by tempfile_decorator only", decs == ["tempfile_decorator"], "decorators: %s" % decs, key="deco", nontrivial=False)
+
+
 def run(ctx):
     ctx.rule("C14-RAISE", "no `return <exception>` / `return None`; every return is the object produced by make_full_samples*; no exception is built and dropped.")
     ctx.rule("C14-TRUNC", "the accepted index is prefix-sliced by exactly n_requested_samples before rows are selected.")
@@ -245,6 +272,7 @@ def run(ctx):
         check_acc(ctx, S, R="C14-ACC")
         check_nonfinite(ctx, S)
     check_budget(ctx, sites)
+    check_wrapper(ctx)
     ctx.floor("C14-RAISE", ctx.count("C14-RAISE"), 4)
     ctx.floor("C14-CHAIN", ctx.count("C14-CHAIN"), 16)
     ctx.assume("Generator.choice(replace=False) returns distinct rows; np.arange(0, n, 1) is the identity map")
